@@ -176,6 +176,33 @@ Proof.
   intros s H R. unfold step. rewrite H, R. cbn. eexists. split; [reflexivity|]. cbn. auto.
 Qed.
 
+(* the metadata store is flag based: Start refuses while running (else sets the flag, 1, and loops, 2); the loop stores
+   every delivered block history (1), ends through Close when its context is done and with nil on a stop request;
+   Close refuses while the flag is clear - the model's refusal of a start-once service that is not running, the
+   known finding close_before_service_start - and otherwise gives the block subscription back (1; an error is passed
+   on), signals the loop (2) and clears the flag (3), the model's stop request *)
+Lemma gen_ms_lifecycle :
+  g_ms_start true = ([], RetO 1) /\ g_ms_start false = ([1; 2], Fall) /\
+  g_ms_loop_body true false false = ([1], Fall) /\ g_ms_loop_body false true false = ([], RetO 2) /\
+  g_ms_loop_body false false true = ([], RetO 0).
+Proof.
+  split; [reflexivity|]. split; [reflexivity|]. split; [reflexivity|]. split; reflexivity.
+Qed.
+
+Lemma gen_ms_close : forall s e, s_c s = CSvc ->
+  exists s1, step (cfg_new KOnce) s CSvcL = Some s1 /\
+  match g_ms_close (negb (v_started s && negb (v_stopped s))) (v_started s && negb (v_stopped s)) e with
+  | ([], RetO 1) => s_c s1 = CSig CSvcErr /\ v_stopreq s1 = v_stopreq s
+  | ([1], RetO 2) => e = true /\ v_started s = true
+  | ([1; 2; 3], RetO 0) => s_c s1 = CWait CNil /\ v_stopreq s1 = true /\ v_stopped s1 = true
+  | _ => False
+  end.
+Proof.
+  intros s e H. unfold step. rewrite H. cbn.
+  destruct (v_started s) eqn:E1; destruct (v_stopped s) eqn:E2; destruct e; cbn;
+    eexists; (split; [reflexivity|]); cbn; auto.
+Qed.
+
 (* plugin.Close closes every recoverer, in order, joining the errors; startServices launches every recoverer *)
 Lemma gen_plugin_close :
   g_plugin_close = ([1], RetO 1) /\ g_plugin_close_body = ([1], Fall) /\ g_plugin_start_body = ([1], Fall).
